@@ -382,7 +382,8 @@ def _fix_worker(case):
     finally:
         signal.alarm(0)
 
-def load_corpus(pid):
+def load_corpus(pid, raw=False):
+    """corpus cases of a property; cases of the translator validation (key pysrc_seed) only with raw=True"""
     path = os.path.join(VERIF, "corpus", pid + ".jsonl")
     pre = []
     if os.path.exists(path):
@@ -391,7 +392,8 @@ def load_corpus(pid):
                 c = json.loads(l)
                 if "history" in c:
                     c["history"] = [tuple(o) for o in c["history"]]
-                pre.append(c)
+                if raw or "pysrc_seed" not in c:
+                    pre.append(c)
     return pre
 
 def summarize(ws, nontrivial):
@@ -444,3 +446,25 @@ from props_solver import *   # noqa  (registers C09, C10, C11)
 from props_control import *  # noqa  (registers C06, C07)
 from props_hist2 import *    # noqa  (registers C13, C15, C16)
 from props_meta import *     # noqa  (registers C17, C18, C19)
+
+# translator tie: C06 (is_subspace / intersect), C10 (place names), C20 (space_unique_key) also validate the functions
+# generated from the current Python sources against the library
+def _with_pysrc(pid):
+    inner = REGISTRY[pid]
+    def runner(tier, seed):
+        import props_pysrc, sys as _sys
+        res = inner(tier, seed)
+        lc = _sys.modules[__name__].load_corpus
+        try:
+            pre = [c for c in lc(pid, raw=True) if "pysrc_seed" in c]
+        except TypeError:
+            pre = []
+        only = os.environ.get("VERIF_ONLY_CORPUS") == "1"
+        if pre or not only:
+            v, st = props_pysrc.pysrc_direct_run(pid, tier, seed, pre=pre)
+            res["violations"] = res["violations"] + v
+            res.setdefault("extra", {}).update(st)
+        return res
+    REGISTRY[pid] = runner
+for _pid in ("C06", "C10", "C20"):
+    _with_pysrc(_pid)
